@@ -63,7 +63,9 @@ Fixpoint cdiff_from (cf : ccfg) (toks : list addr) (s : cstate) (items : list ci
 (* THE MONITOR of the compliance layer: over observations only.
    - can_transfer / can_create answer true iff every module registered for the hook approves;
      the modules are asked in registration order up to the first refusal, each once, with the
-     exact arguments;
+     exact arguments; they ANSWER AT ALL only if none of the modules asked fails (a module that
+     traps, cannot be invoked or does not return a bool is not an approval: the query itself fails);
+   - a notification is accepted only if none of the modules registered for the hook fails;
    - transferred / created / destroyed are accepted only with the authorisation of the token
      they name and only if that token is bound; then every module registered for the hook receives
      the notification exactly once, in registration order, with the exact arguments;
@@ -82,12 +84,8 @@ Fixpoint nodupb (l : list addr) : bool :=
   | x :: r => negb (mem x r) && nodupb r
   end.
 
-(* the modules that get asked: up to and including the first one that refuses *)
-Fixpoint asked (deny : list addr) (ms : list addr) : list addr :=
-  match ms with
-  | [] => []
-  | m :: r => if mem m deny then [m] else m :: asked deny r
-  end.
+(* ([asked deny ms], the modules that get asked - up to and including the first one that refuses -
+   and [any_fail fail ms] are defined with the model) *)
 Definition all_approve (deny : list addr) (ms : list addr) : bool :=
   forallb (fun m => negb (mem m deny)) ms.
 
@@ -119,10 +117,12 @@ Fixpoint bounds_ok (c : ccall) (p q : list (addr * bool)) : bool :=
 Definition notif_ok (toks : list addr) (prev cur : cobs) (c : ccall) (h : hook) (e : mev) (tok : addr) : bool :=
   has_auth (cc_auths c) tok
   && match bound_look toks prev tok with Some b => b | None => true end
+  && negb (any_fail (cc_fail c) (mods_of prev h))
   && eqb_list eqb_entry (co_log cur) (map (fun m => (m, e)) (mods_of prev h)).
 
 Definition query_ok (prev cur : cobs) (c : ccall) (r : cret) (h : hook) (e : mev) : bool :=
   eqb_cret r (Some (all_approve (cc_deny c) (mods_of prev h)))
+  && negb (any_fail (cc_fail c) (asked (cc_deny c) (mods_of prev h)))
   && eqb_list eqb_entry (co_log cur) (map (fun m => (m, e)) (asked (cc_deny c) (mods_of prev h))).
 
 Definition cgates_ok (cf : ccfg) (toks : list addr) (prev cur : cobs) (c : ccall) (r : cret) : bool :=
